@@ -1,6 +1,6 @@
-SPECIFICATION MSpec
+SPECIFICATION Spec
 CONSTANTS
- Fam = "missing"
+ Fam = "devRepBeforePattern"
  Cases <- FamCases
  DevMono = FALSE
  DevNoOrder = FALSE
@@ -13,7 +13,7 @@ CONSTANTS
  DevF13 = FALSE
  DevVerKey = FALSE
  DevDangEnd = FALSE
- DevRepBeforePattern = FALSE
+ DevRepBeforePattern = TRUE
  DevLastOfName = FALSE
  DevNoAtomResname = FALSE
  DevOrderedPairs = FALSE
@@ -21,6 +21,5 @@ CONSTANTS
  DevGateBuildOnly = FALSE
  DevMissingCache = FALSE
  DevDegree = FALSE
-INVARIANT MissingIsExpected
-INVARIANT BondXorMissing
+INVARIANT FinalIsExpected
 CHECK_DEADLOCK FALSE
